@@ -4,6 +4,8 @@ import (
 	"sort"
 	"strconv"
 	"strings"
+
+	plush "github.com/gobuffalo/plush/v5"
 )
 
 // Generator, printer and shrinker for the C09 oracle.
@@ -22,6 +24,7 @@ type c09Gen struct {
 	visH                   []string            // variables holding a hash that are bound here (in every reading)
 	hkeys                  map[string][]string // hash variable -> its keys
 	visP                   []c09PRef           // partials rendered earlier in this or an enclosing block
+	visFail                []string            // functions whose body fails (unknown identifier): only ever called where that is forgiven, or from the body of another such function
 }
 
 type c09PRef struct {
@@ -82,6 +85,63 @@ func (g *c09Gen) call(name string, nest int) *c09Node {
 		n.Args = append(n.Args, g.operand(40, 15, nest, ps))
 	}
 	return n
+}
+
+// c09FcallForms: the positions in which plush forgives an unknown identifier: the condition of an if / else if,
+// the operand of !, either operand of == != && ||. %s = the call. The if blocks are empty: whether a call that
+// did not fail is truthy is not this property's business.
+var c09FcallForms = []string{
+	"<%= if (%s) { %><% } %>",
+	"<%= if (false) { %><% } else if (%s) { %><% } %>",
+	"<%= if (%s) { %><% } else { %><% } %>",
+	"<%= !%s %>",
+	"<%= %s == nil %>",
+	"<%= nil != %s %>",
+	"<%= %s && true %>",
+	"<%= true && %s %>",
+	"<%= false || %s %>",
+	"<%= %s || false %>",
+}
+
+func (g *c09Gen) fcall(name string) *c09Node {
+	n := g.call(name, 0)
+	n.T, n.Form = "fcall", g.r.Intn(len(c09FcallForms))
+	return n
+}
+
+// leave: a way out of the construct whose body this is, put somewhere into the body (what follows it there is
+// dead code, or is skipped by that iteration): how = break | continue (loop body), return (function body),
+// fail (function body: an unknown identifier, or a plain call of a function that fails). The statement sits
+// in the body itself or under ifs; a failure also inside loops (whose scope it ends on its way out).
+func (g *c09Gen) leave(body []*c09Node, how string) []*c09Node {
+	r := g.r
+	nested := []int{}
+	for i, n := range body {
+		if n.T == "if" || (n.T == "for" && how == "fail") {
+			nested = append(nested, i)
+		}
+	}
+	if len(nested) > 0 && r.Chance(40) {
+		i := Pick(r, nested)
+		c := *body[i]
+		c.Body = g.leave(c.Body, how)
+		out := append([]*c09Node{}, body[:i]...)
+		out = append(out, &c)
+		return append(out, body[i+1:]...)
+	}
+	var x *c09Node
+	if how == "fail" && len(g.visFail) > 0 && r.Chance(35) {
+		x = g.call(Pick(r, g.visFail), 0)
+	} else {
+		x = &c09Node{T: "exit", Name: how}
+	}
+	if r.Chance(30) {
+		x = &c09Node{T: "if", Body: []*c09Node{g.probe(g.name()), x}}
+	}
+	at := r.Intn(len(body) + 1)
+	out := append([]*c09Node{}, body[:at]...)
+	out = append(out, x)
+	return append(out, body[at:]...)
 }
 
 func (g *c09Gen) data() []c09Datum {
@@ -176,7 +236,7 @@ func c09BoundIn(ns []*c09Node, set map[string]bool) {
 				set[p] = true
 			}
 		}
-		if n.T != "hash" {
+		if n.T != "hash" && n.T != "rename" {
 			for _, d := range n.Data {
 				set[d.K] = true
 			}
@@ -191,9 +251,9 @@ func c09BoundIn(ns []*c09Node, set map[string]bool) {
 // block: lets, probes, constructs. noLet: directly inside an if (not a scope; left open).
 func (g *c09Gen) block(depth int, inFn, noLet bool) []*c09Node {
 	r := g.r
-	nf, nc, ns, nh, np := len(g.visFn), len(g.visCf), len(g.scope), len(g.visH), len(g.visP)
+	nf, nc, ns, nh, np, nx := len(g.visFn), len(g.visCf), len(g.scope), len(g.visH), len(g.visP), len(g.visFail)
 	defer func() {
-		g.visFn, g.visCf, g.scope, g.visH, g.visP = g.visFn[:nf], g.visCf[:nc], g.scope[:ns], g.visH[:nh], g.visP[:np]
+		g.visFn, g.visCf, g.scope, g.visH, g.visP, g.visFail = g.visFn[:nf], g.visCf[:nc], g.scope[:ns], g.visH[:nh], g.visP[:np], g.visFail[:nx]
 	}()
 	out := []*c09Node{}
 	items := r.Range(1, 3)
@@ -234,6 +294,19 @@ func (g *c09Gen) block(depth int, inFn, noLet bool) []*c09Node {
 				}
 			}
 			if k == 0 {
+				out = append(out, g.probe(g.name()))
+			}
+		case w < 66 && len(g.visFail) > 0: // a function that fails, called (again, from here) where the failure is forgiven
+			n := g.fcall(Pick(r, g.visFail))
+			out = append(out, n)
+			k := 0
+			for _, b := range g.params[n.Name] { // after the failed call: its parameters
+				if k < 2 && r.Chance(70) {
+					out = append(out, g.probe(b))
+					k++
+				}
+			}
+			if k == 0 || r.Chance(30) {
 				out = append(out, g.probe(g.name()))
 			}
 		case depth < g.maxDepth:
@@ -294,14 +367,22 @@ func (g *c09Gen) construct(depth int, inFn bool) []*c09Node {
 		for i, k := 0, r.Range(1, 2); i < k; i++ { // elements may read outer variables, also the one the loop variable shadows
 			n.Elems = append(n.Elems, g.operand(25, 0, 2, []string{n.V}))
 		}
-		if r.Chance(4) {
+		switch w := r.Intn(100); {
+		case w < 4:
 			n.Elems = nil
+		case w < 9: // a nil value: nothing to iterate over
+			n.Elems, n.Iter = nil, "nil"
+		case w < 17: // a hash of one pair (the order of more is not specified)
+			n.Elems, n.Iter = n.Elems[:1], "hash"
 		}
 		b := []string{n.V}
 		if n.K != "" {
 			b = append(b, n.K)
 		}
 		n.Body = g.body(depth+1, inFn, b)
+		if r.Chance(14) {
+			n.Body = g.leave(n.Body, Pick(r, []string{"break", "continue"}))
+		}
 		return []*c09Node{n}
 	case w < 44:
 		g.nfn++
@@ -326,6 +407,17 @@ func (g *c09Gen) construct(depth int, inFn bool) []*c09Node {
 		}
 		g.params[d.Name] = d.Ps
 		d.Body = g.body(depth+1, true, d.Ps)
+		switch w := r.Intn(100); {
+		case w < 20: // the body fails: the function is only called where that is forgiven
+			d.Body = g.leave(d.Body, "fail")
+			out := []*c09Node{d}
+			out = append(out, filler()...)
+			out = append(out, g.fcall(d.Name))
+			g.visFail = append(g.visFail, d.Name)
+			return out
+		case w < 32:
+			d.Body = g.leave(d.Body, "return")
+		}
 		out := []*c09Node{d}
 		if depth >= 2 || r.Chance(75) { // otherwise only called from deeper blocks / later
 			out = append(out, filler()...)
@@ -376,7 +468,7 @@ func (g *c09Gen) construct(depth int, inFn bool) []*c09Node {
 
 // ---- labels, shape
 
-var c09Kind = map[string]string{"for": "for", "call": "fn-call", "partial": "partial", "pagain": "partial", "cfcall": "contentFor", "cof": "contentOf-block", "blk": "blockwith-helper", "if": "if"}
+var c09Kind = map[string]string{"for": "for", "call": "fn-call", "fcall": "forgiven-fn-call", "partial": "partial", "pagain": "partial", "cfcall": "contentFor", "cof": "contentOf-block", "blk": "blockwith-helper", "if": "if"}
 
 func c09Label(ns []*c09Node, enclosing string) {
 	last := ""
@@ -443,6 +535,24 @@ type c09Printer struct {
 	unsafe   map[int]bool // variable read id -> may meet an unbound name, nil or a call's value
 	partials map[string]string
 	maps     map[string]map[string]string
+	vars     map[string]string
+	ren      map[string]string // x|y|z -> the name it is written as (a name plush also registers a global helper under)
+}
+
+// nm: the name a variable is written as.
+func (p *c09Printer) nm(n string) string {
+	if w, ok := p.ren[n]; ok {
+		return w
+	}
+	return n
+}
+
+func (p *c09Printer) nms(ns []string) []string {
+	out := []string{}
+	for _, n := range ns {
+		out = append(out, p.nm(n))
+	}
+	return out
 }
 
 // data: the data argument of a partial / contentOf / block helper call ("" = none).
@@ -465,9 +575,9 @@ func (p *c09Printer) arg(a c09Arg) string {
 		return p.callExpr(a.Call)
 	case a.Var != "":
 		if p.unsafe[a.RID] {
-			return "c09v(" + strconv.Quote(a.Var) + ")"
+			return "c09v(" + strconv.Quote(p.nm(a.Var)) + ")"
 		}
-		return a.Var
+		return p.nm(a.Var)
 	}
 	return strconv.Quote(a.Lit)
 }
@@ -483,7 +593,7 @@ func (p *c09Printer) callExpr(n *c09Node) string {
 func (p *c09Printer) hash(d []c09Datum) string {
 	ss := []string{}
 	for _, x := range d {
-		ss = append(ss, x.K+": "+p.arg(x.A))
+		ss = append(ss, p.nm(x.K)+": "+p.arg(x.A))
 	}
 	return "{" + strings.Join(ss, ", ") + "}"
 }
@@ -493,17 +603,36 @@ func (p *c09Printer) print(ns []*c09Node, inFn bool) string {
 	for _, n := range ns {
 		switch n.T {
 		case "let":
-			b.WriteString("<% let " + n.Name + " = " + p.arg(n.A) + " %>")
+			if n.Go {
+				p.vars[p.nm(n.Name)] = n.A.Lit
+			} else {
+				b.WriteString("<% let " + p.nm(n.Name) + " = " + p.arg(n.A) + " %>")
+			}
 		case "probe":
-			id := strconv.Itoa(n.ID)
-			b.WriteString("<% c09p(" + id + ", " + strconv.Quote(n.Name) + ") %>")
+			id, name := strconv.Itoa(n.ID), p.nm(n.Name)
+			b.WriteString("<% c09p(" + id + ", " + strconv.Quote(name) + ") %>")
 			if !inFn {
-				b.WriteString("[" + id + ":<%= " + n.Name + " == nil %>")
+				b.WriteString("[" + id + ":<%= " + name + " == nil")
+				if name != n.Name { // unbound = the built-in helper of that name shows through
+					b.WriteString(" || c09g(" + strconv.Quote(name) + ")")
+				}
+				b.WriteString(" %>")
 				if p.always[n.ID] {
-					b.WriteString(":<%= " + n.Name + " %>")
+					b.WriteString(":<%= " + name + " %>")
 				}
 				b.WriteString("]")
 			}
+		case "exit":
+			switch n.Name {
+			case "fail":
+				b.WriteString("<% " + c09Missing + " %>")
+			case "return":
+				b.WriteString("<% return \"r\" %>")
+			default:
+				b.WriteString("<% " + n.Name + " %>")
+			}
+		case "fcall":
+			b.WriteString(strings.Replace(c09FcallForms[n.Form%len(c09FcallForms)], "%s", p.callExpr(n), 1))
 		case "if":
 			b.WriteString("<%= if (true) { %>" + p.print(n.Body, inFn) + "<% } %>")
 		case "for":
@@ -511,20 +640,29 @@ func (p *c09Printer) print(ns []*c09Node, inFn bool) string {
 			for _, e := range n.Elems {
 				es = append(es, p.arg(e))
 			}
-			head := "(" + n.V + ")"
+			head := "(" + p.nm(n.V) + ")"
 			if n.K != "" {
-				head = "(" + n.K + ", " + n.V + ")"
+				head = "(" + p.nm(n.K) + ", " + p.nm(n.V) + ")"
 			}
-			b.WriteString("<%= for " + head + " in [" + strings.Join(es, ", ") + "] { %>" + p.print(n.Body, inFn) + "<% } %>")
+			iter := "[" + strings.Join(es, ", ") + "]"
+			switch {
+			case n.Iter == "nil":
+				iter = "c09v(\"" + c09Missing + "\")"
+			case n.Iter == "hash" && len(es) == 1:
+				iter = "{k: " + es[0] + "}"
+			case n.Iter == "hash":
+				iter = "{}"
+			}
+			b.WriteString("<%= for " + head + " in " + iter + " { %>" + p.print(n.Body, inFn) + "<% } %>")
 		case "fndef":
-			b.WriteString("<% let " + n.Name + " = fn(" + strings.Join(n.Ps, ", ") + ") { %>" + p.print(n.Body, true) + "<% } %>")
+			b.WriteString("<% let " + n.Name + " = fn(" + strings.Join(p.nms(n.Ps), ", ") + ") { %>" + p.print(n.Body, true) + "<% } %>")
 		case "call":
 			b.WriteString("<%= " + p.callExpr(n) + " %>")
 		case "hash":
 			if n.Go {
 				gm := map[string]string{}
 				for _, d := range n.Data {
-					gm[d.K] = d.A.Lit
+					gm[p.nm(d.K)] = d.A.Lit
 				}
 				p.maps[n.Name] = gm
 			} else {
@@ -609,11 +747,29 @@ func c09Features(ns []*c09Node, unsafe map[int]bool, params map[string][]string,
 			params[n.Name] = n.Ps
 		case "let":
 			operand("let", n.A)
+			if n.Go {
+				set["let-by-application"] = true
+			}
 		case "call":
 			call(n)
+		case "fcall":
+			call(n)
+			set["forgiven-call"] = true
+			f := c09FcallForms[n.Form%len(c09FcallForms)]
+			set["forgiven-call-in:"+strings.TrimSpace(strings.NewReplacer("<%=", "", "%>", "", "<%", "", "{", "", "}", "", "%s", "F").Replace(f))] = true
+		case "exit":
+			set["leaves-by:"+n.Name] = true
+		case "rename":
+			if len(n.Data) > 0 {
+				set["names-of-global-helpers"] = true
+			}
+			continue
 		case "for":
 			for _, e := range n.Elems {
 				operand("elem", e)
+			}
+			if n.Iter != "" {
+				set["for-over:"+n.Iter] = true
 			}
 		}
 		pos := "data"
@@ -657,13 +813,23 @@ func c09Build(prog []*c09Node) *c09Case {
 			always[id] = always[id] && ok
 		}
 	}
-	p := &c09Printer{always: always, unsafe: unsafe, partials: map[string]string{}, maps: map[string]map[string]string{}}
+	p := &c09Printer{always: always, unsafe: unsafe, partials: map[string]string{}, maps: map[string]map[string]string{}, vars: map[string]string{}, ren: map[string]string{}}
+	for _, n := range prog {
+		if n.T == "rename" {
+			for _, d := range n.Data {
+				p.ren[d.K] = d.A.Lit
+			}
+		}
+	}
 	cs := &c09Case{Tmpl: p.print(prog, false), Shape: c09Shape(prog)}
 	if len(p.partials) > 0 {
 		cs.Partials = p.partials
 	}
 	if len(p.maps) > 0 {
 		cs.Maps = p.maps
+	}
+	if len(p.vars) > 0 {
+		cs.Vars = p.vars
 	}
 	feat := map[string]bool{}
 	c09Features(prog, unsafe, map[string][]string{}, feat)
@@ -673,7 +839,7 @@ func c09Build(prog []*c09Node) *c09Case {
 	sort.Strings(cs.Feat)
 	for i, id := range ids {
 		n := byID[id]
-		cs.Seq = append(cs.Seq, c09Expect{ID: id, Name: n.Name, Want: allowed[i], Text: text[id], Label: n.Label, Dyn: dyn[i]})
+		cs.Seq = append(cs.Seq, c09Expect{ID: id, Name: p.nm(n.Name), Want: allowed[i], Text: text[id], Label: n.Label, Dyn: dyn[i]})
 	}
 	return cs
 }
@@ -785,7 +951,7 @@ func c09Valid(ns []*c09Node, vis map[string]bool) bool {
 	}()
 	for _, n := range ns {
 		switch n.T {
-		case "call", "cfcall", "pagain":
+		case "call", "fcall", "cfcall", "pagain":
 			if !vis[n.Name] {
 				return false
 			}
@@ -809,6 +975,26 @@ func c09Valid(ns []*c09Node, vis map[string]bool) bool {
 	return true
 }
 
+// c09HelperNames: the names under which plush registers its global helpers that can be written as a variable
+// and that the generated templates do not call themselves. Sorted.
+func c09HelperNames() []string {
+	uses := map[string]bool{"partial": true, "contentFor": true, "contentOf": true}
+	out := []string{}
+	for k := range plush.Helpers.All() {
+		ok := !uses[k] && k != ""
+		for i, c := range k {
+			if !(c >= 'a' && c <= 'z' || c >= 'A' && c <= 'Z' || i > 0 && c >= '0' && c <= '9') {
+				ok = false
+			}
+		}
+		if ok {
+			out = append(out, k)
+		}
+	}
+	sort.Strings(out)
+	return out
+}
+
 func c09Generate(cfg Config, rep *Report, r *Rng) {
 	total := cfg.N(18000, 200000)
 	for i := 0; i < total && !rep.Full(); i++ {
@@ -825,6 +1011,29 @@ func c09Generate(cfg Config, rep *Report, r *Rng) {
 			}
 			g.declHash(n)
 			prog = append(prog, n)
+		}
+		if r.Chance(30) { // some of the names are written as names plush also registers a global helper under
+			hs := c09HelperNames()
+			n := &c09Node{T: "rename"}
+			used := map[string]bool{}
+			for _, v := range c09Names {
+				if len(used) < len(hs) && r.Chance(65) {
+					h := Pick(r, hs)
+					for used[h] {
+						h = Pick(r, hs)
+					}
+					used[h] = true
+					n.Data = append(n.Data, c09Datum{K: v, A: c09Arg{Lit: h}})
+				}
+			}
+			prog = append(prog, n)
+		}
+		if r.Chance(15) { // values the application put in the render context before the render
+			a := r.Intn(3)
+			for _, k := range [][]string{{c09Names[a]}, {c09Names[a], c09Names[(a+1)%3]}}[r.Intn(2)] {
+				prog = append(prog, &c09Node{T: "let", Name: k, A: g.lit(), Go: true})
+				g.scope = append(g.scope, k)
+			}
 		}
 		prog = append(prog, g.block(0, false, false)...)
 		for _, n := range c09Names { // every program ends by looking at all three names at top level
